@@ -91,6 +91,7 @@ def explore_config(rep, task, clauses=None, pid=PID):
     r = coverage_certificate(paths, pre, name=f'{name}:coverage')
     rep.ob(f'{name}:coverage', r)
     nviol = 0
+    seen = set()
     for p in paths:
         viol = p.result['viol']
         if clauses is not None:
@@ -98,7 +99,13 @@ def explore_config(rep, task, clauses=None, pid=PID):
         if not viol:
             continue
         nviol += 1
-        if nviol > 3:
+        new_keys = []
+        for v in viol:  # one report per distinct violated clause
+            key = f'{pid}/{v[0]}/{"ml" if NL > 1 else "sl"}/{pred}'
+            if key not in seen:
+                seen.add(key)
+                new_keys.append((key, v))
+        if not new_keys:
             continue
         # concrete witness of this path, replayed on the plain interpreter
         res, model = satisfiable(pre + list(p.pc), name=f'{name}:witness', kind='witness')
@@ -106,12 +113,11 @@ def explore_config(rep, task, clauses=None, pid=PID):
         if res == 'sat':
             for d in model.decls():
                 wit[d.name()] = str(model_value(model, d()))
-        rep.replayed += 1
-        clause = viol[0][0]
-        rep.violation(f'{pid}/{clause}/{"ml" if NL > 1 else "sl"}/{pred}',
-                      f'{name}: clause {clause} violated on a feasible convergence pattern: {str(viol[0][1])[:300]}',
-                      {'task': list(task), 'decisions': p.decisions, 'witness': wit, 'violated': [(v[0], str(v[1])[:300]) for v in viol],
-                       'callbacks': p.result.get('words')})
+        for key, v in new_keys:
+            rep.replayed += 1
+            rep.violation(key, f'{name}: clause {v[0]} violated on a feasible convergence pattern: {str(v[1])[:300]}',
+                          {'task': list(task), 'decisions': p.decisions, 'witness': wit, 'violated': [(x[0], str(x[1])[:300]) for x in viol],
+                           'callbacks': p.result.get('words')})
     if len(rep.samples) < 6 and paths:
         p = paths[len(paths) // 2]
         rep.sample({'config': name, 'paths': len(paths), 'a_path': {'decisions': p.decisions, 'niter': p.result.get('niter'),
